@@ -342,6 +342,10 @@ def rebalance_over_time(chk, pid):
     it = e.loops[-1].iter
     ok = it[0] == "mcall" and it[2] == "keys" and canon(it[1]) == canon(wv)
     chk.ob("C06.R8", ok, ALGOS, host, "step-over-all-targets", "every target gets a step", where=e.where, found=short(it, 100))
+    g_loop = [l for l in plain(e.guard) if sym.contains(l[0], lambda n: n[0] in ("elem", "dkey", "dval", "ditem") or (n[0] == "fld" and False))]
+    extra_step = [l for l in g_loop if sym.contains(canon(l[0]), lambda n: n[0] in ("elem", "dkey", "dval", "ditem"))]
+    chk.ob("C06.R8", not extra_step, ALGOS, host, "step-unconditional", "no target is left out of the step weights: a child missing from them would be CLOSED by the inner Rebalance (also one that already sits on its target)",
+           where=e.where, expected="tgt[cname] set for every cname", found=sym.fmt_guard(extra_step)[:200])
     # arming, countdown, clearing
     dw = S.writes("_days_left", SELF)
     arm = [w for w in dw if canon(w.value) == canon(fld(SELF, "n")) and sym.lit_holds(sym.sat(w.guard), ("in", ("str", "weights"), ("fld", ("param", "target"), "temp", 0)), True)]
@@ -374,3 +378,5 @@ def run(chk):
     core_rules.strategy_update(chk, "C06")
     core_rules.fresh_read_rules(chk, "C06")
     rebalance_over_time(chk, "C06")
+    from . import backtest_rules
+    backtest_rules.adjust_call_sites(chk, "C06")  # capital injected before Rebalance must be visible in the base it captures
